@@ -31,7 +31,7 @@ def _gen_split(rnd):
 
 @contract('frontends.tui.arguments._split_command')
 def _(c):
-    c.prop('C19')
+    c.prop('C19', 'C13')   # C13: the program's argument list is what follows the first -r, verbatim (option spellings included)
     c.specialize(commands=[['-g', '--gdb'], ['-r', '--run']])
     c.requires('all(not ambiguous_cluster(args[k]) for k in range(0, len(args)))', 'no_marker_letter_inside_a_cluster')
     c.let('n', 'len(args)')
